@@ -14,7 +14,12 @@ package main
 // templates). The only foreign mechanism is a "spy" authorizer, which reports the heimdall.Request it is handed.
 // Reported per entry point: the decision, the request view seen by the spy, and the headers / cookies handed to
 // the upstream side (response of the decision service, request received by the upstream of the proxy, OkResponse
-// header options of the Envoy service).
+// header options of the Envoy service), for the proxy also the payload its upstream received.
+//
+// The services are created with the logger of the log level of the case (`log`: trace … disabled; written to a
+// discarded writer), as cmd/serve does with `log.level`: the dump middleware of the HTTP based services and the trace /
+// debug code paths of the pipeline only run at some levels. Bodies may be some hundred KiB long; long values are
+// reported by digest (c13Val).
 
 import (
 	"bufio"
@@ -29,6 +34,7 @@ import (
 	"encoding/json"
 	"errors"
 	"fmt"
+	"hash/fnv"
 	"io"
 	"math/big"
 	"net"
@@ -39,6 +45,7 @@ import (
 	"strings"
 	"sync"
 	"sync/atomic"
+	"syscall"
 	"time"
 
 	envoy_auth "github.com/envoyproxy/go-control-plane/envoy/service/auth/v3"
@@ -84,6 +91,20 @@ func c13Chars(s string) string {
 	}
 
 	return string(r)
+}
+
+// c13Val renders a value as it is compared with the model: as it is up to 1024 bytes; a longer one (bodies of up to
+// some hundred KiB and what the templates make of them) by its first and last 32 bytes, its length and its FNV-1a hash
+// (the driver's `digest` renders the same).
+func c13Val(s string) string {
+	if len(s) <= 1024 {
+		return c13Chars(s)
+	}
+
+	h := fnv.New64a()
+	_, _ = h.Write([]byte(s))
+
+	return c13Chars(s[:32]) + fmt.Sprintf("...[%d bytes fnv1a64=%x]...", len(s), h.Sum64()) + c13Chars(s[len(s)-32:])
 }
 
 // ---------------------------------------------------------------------------------------------------------------
@@ -207,7 +228,7 @@ func c13CanonBody(v any) string {
 func c13SortedPairs(m map[string]string) [][]string {
 	res := [][]string{}
 	for k, v := range m {
-		res = append(res, []string{c13Chars(k), c13Chars(v)})
+		res = append(res, []string{c13Chars(k), c13Val(v)})
 	}
 
 	sort.Slice(res, func(i, j int) bool { return res[i][0] < res[j][0] })
@@ -243,7 +264,7 @@ func (c13SpyAuthorizer) Execute(ctx heimdall.Context, _ *subject.Subject) error 
 		"headers":  c13SortedPairs(req.Headers()),
 		"header":   hdr,
 		"cookie":   ck,
-		"body":     c13Chars(c13CanonBody(req.Body())),
+		"body":     c13Val(c13CanonBody(req.Body())),
 		// a second call has to return the same view
 		"stable": ctx.Request() == req,
 	}
@@ -432,9 +453,10 @@ type c13Upstream struct {
 	hits    int
 	headers http.Header
 	cookies []*http.Cookie
+	payload string // the body the upstream application received ("read error: …" if it could not be read)
 }
 
-// c13Stack: the three services started with one response configuration
+// c13Stack: the three services started with one response configuration and one log level
 type c13Stack struct {
 	decision, decisionTLS string
 	proxy, proxyTLS       string
@@ -445,7 +467,7 @@ type c13Stack struct {
 type c13Services struct {
 	*c13Stack // of the case at hand
 
-	stacks   map[string]*c13Stack // by response configuration
+	stacks   map[string]*c13Stack // by response configuration and log level
 	tlsCfg   *tls.Config
 	upstream *httptest.Server
 	up       *c13Upstream
@@ -483,27 +505,62 @@ func c13TLSConfig() (*tls.Config, error) {
 	}, nil
 }
 
+// c13DeadPort hands out a loopback address nobody listens on and nobody will: the socket is bound (so the kernel gives
+// the port to no listener and to no client of this or another process) but never listens, so every connection
+// attempt is refused at once. It stays open as long as the process lives. (A port that is merely released after
+// having been handed out is soon given to one of the many listeners of the service stacks, and the request of the
+// `generic` contextualizer then reaches one of the services under test instead of nobody.)
+func c13DeadPort() (string, error) {
+	fd, err := syscall.Socket(syscall.AF_INET, syscall.SOCK_STREAM, 0)
+	if err != nil {
+		return "", err
+	}
+
+	if err = syscall.Bind(fd, &syscall.SockaddrInet4{Port: 0, Addr: [4]byte{127, 0, 0, 1}}); err != nil {
+		_ = syscall.Close(fd)
+
+		return "", err
+	}
+
+	sa, err := syscall.Getsockname(fd)
+	if err != nil {
+		_ = syscall.Close(fd)
+
+		return "", err
+	}
+
+	in4, ok := sa.(*syscall.SockaddrInet4)
+	if !ok {
+		_ = syscall.Close(fd)
+
+		return "", errors.New("harness: unexpected socket address type")
+	}
+
+	return "127.0.0.1:" + strconv.Itoa(in4.Port), nil
+}
+
 func c13Start() (*c13Services, error) {
 	svc := &c13Services{stacks: map[string]*c13Stack{}, up: &c13Upstream{}}
 	log := zerolog.Nop()
 
-	// a loopback port nobody listens on (handed out by the kernel, then released)
-	dead, err := verifListen("127.0.0.1:0")
+	// a loopback port nobody listens on
+	deadAddr, err := c13DeadPort()
 	if err != nil {
 		return nil, err
 	}
 
-	deadAddr := dead.Addr().String()
-	_ = dead.Close()
-
 	svc.upstream = httptest.NewServer(http.HandlerFunc(func(rw http.ResponseWriter, req *http.Request) {
+		payload, err := io.ReadAll(req.Body)
+		if err != nil {
+			payload = []byte("read error: " + err.Error())
+		}
+
 		svc.up.mu.Lock()
 		svc.up.hits++
 		svc.up.headers = req.Header.Clone()
 		svc.up.cookies = req.Cookies()
+		svc.up.payload = string(payload)
 		svc.up.mu.Unlock()
-
-		_, _ = io.Copy(io.Discard, req.Body)
 
 		rw.WriteHeader(http.StatusOK)
 	}))
@@ -538,11 +595,37 @@ func c13Start() (*c13Services, error) {
 	return svc, nil
 }
 
-// stack starts (once per response configuration) the real decision, proxy and Envoy ext_authz services
-func (svc *c13Services) stack(rc *c13Respond) (*c13Stack, error) {
-	key := fmt.Sprintf("%+v", *rc)
+// c13Logger is the logger cmd/serve creates for `log.level` (logging.NewLogger:
+// zerolog.New(writer).Level(level).With().Timestamp().Logger()), except that what is logged goes to a discarded
+// writer: at trace level every request and response is dumped, which must neither slow the run down nor fill a disk.
+// The services put it into the context of every request, where the middlewares and the pipeline code find it with
+// zerolog.Ctx. No level given: the no-op logger (as before the level became part of a case).
+func c13Logger(level string) (zerolog.Logger, error) {
+	switch level {
+	case "":
+		return zerolog.Nop(), nil
+	case "disabled":
+		return zerolog.New(io.Discard).Level(zerolog.Disabled).With().Timestamp().Logger(), nil
+	}
+
+	lvl, err := zerolog.ParseLevel(level)
+	if err != nil || lvl < zerolog.TraceLevel || lvl > zerolog.ErrorLevel {
+		return zerolog.Nop(), fmt.Errorf("harness: unknown log level %q", level)
+	}
+
+	return zerolog.New(io.Discard).Level(lvl).With().Timestamp().Logger(), nil
+}
+
+// stack starts (once per response configuration and log level) the real decision, proxy and Envoy ext_authz services
+func (svc *c13Services) stack(rc *c13Respond, level string) (*c13Stack, error) {
+	key := fmt.Sprintf("%+v|%s", *rc, level)
 	if st, ok := svc.stacks[key]; ok {
 		return st, nil
+	}
+
+	log, err := c13Logger(level)
+	if err != nil {
+		return nil, err
 	}
 
 	var respond config.RespondConfig
@@ -557,7 +640,6 @@ func (svc *c13Services) stack(rc *c13Respond) (*c13Stack, error) {
 	respond.With.NoRuleError.Code = rc.Codes.NoRule
 
 	st := &c13Stack{decSwitch: &c13Switch{}, prxSwitch: &c13Switch{}}
-	log := zerolog.Nop()
 	sc := config.ServiceConfig{Host: "127.0.0.1", Respond: respond}
 	conf := &config.Configuration{Serve: config.ServeConfig{Decision: sc, Proxy: sc}}
 
@@ -577,8 +659,6 @@ func (svc *c13Services) stack(rc *c13Respond) (*c13Stack, error) {
 
 		return l1.Addr().String(), l2.Addr().String(), nil
 	}
-
-	var err error
 
 	if st.decision, st.decisionTLS, err = serve(
 		decision.VerifC13NewService(conf, &noop.Cache{}, log, st.decSwitch)); err != nil {
@@ -783,7 +863,7 @@ func c13WireHTTP(addr string, lr *c13Req) (*http.Response, error) {
 		})
 	}
 
-	_ = conn.SetDeadline(time.Now().Add(20 * time.Second))
+	_ = conn.SetDeadline(time.Now().Add(30 * time.Second))
 
 	var msg bytes.Buffer
 
@@ -805,14 +885,31 @@ func c13WireHTTP(addr string, lr *c13Req) (*http.Response, error) {
 		msg.WriteString(c13Bytes(*lr.Body))
 	}
 
-	if _, err = conn.Write(msg.Bytes()); err != nil {
-		return nil, err
-	}
+	// A body may be larger than what the socket buffers hold, and a server which answers without reading all of it
+	// closes the connection while the rest is still being written: the message is written while the response is
+	// awaited, and a write error only counts if no response arrives.
+	written := make(chan error, 1)
+
+	go func() {
+		_, werr := conn.Write(msg.Bytes())
+		written <- werr
+	}()
 
 	resp, err := http.ReadResponse(bufio.NewReader(conn), &http.Request{Method: lr.Method})
 	if err != nil {
+		_ = conn.SetDeadline(time.Now()) // releases the writer
+
+		if werr := <-written; werr != nil {
+			return nil, fmt.Errorf("%w (writing the request: %s)", err, werr.Error())
+		}
+
 		return nil, err
 	}
+
+	defer func() {
+		_ = conn.SetDeadline(time.Now())
+		<-written
+	}()
 
 	c13BodyLen, _ = io.Copy(io.Discard, resp.Body)
 	_ = resp.Body.Close()
@@ -887,7 +984,7 @@ func c13NS(h http.Header) [][]string {
 
 	for k, v := range h {
 		if strings.HasPrefix(http.CanonicalHeaderKey(k), c13HeaderPrefix) {
-			res = append(res, []string{http.CanonicalHeaderKey(k), c13Chars(strings.Join(v, ","))})
+			res = append(res, []string{http.CanonicalHeaderKey(k), c13Val(strings.Join(v, ","))})
 		}
 	}
 
@@ -911,7 +1008,7 @@ func c13UpCookies(cs []*http.Cookie) [][]string {
 
 	for _, c := range cs {
 		if strings.HasPrefix(c.Name, c13CookiePrefix) {
-			res = append(res, []string{c.Name, c13Chars(c.Value)})
+			res = append(res, []string{c.Name, c13Val(c.Value)})
 		}
 	}
 
@@ -950,7 +1047,7 @@ func runEntryView(c map[string]any) (any, error) {
 		}
 	}
 
-	st, err := svc.stack(&rc)
+	st, err := svc.stack(&rc, getStr(c, "log"))
 	if err != nil {
 		return nil, err
 	}
@@ -1061,7 +1158,7 @@ func runEntryView(c map[string]any) (any, error) {
 	c13TakeSpy(spy)
 
 	svc.up.mu.Lock()
-	svc.up.hits, svc.up.headers, svc.up.cookies = 0, nil, nil
+	svc.up.hits, svc.up.headers, svc.up.cookies, svc.up.payload = 0, nil, nil, ""
 	svc.up.mu.Unlock()
 
 	addr = svc.proxy
@@ -1085,7 +1182,10 @@ func runEntryView(c map[string]any) (any, error) {
 				out["dec"] = "ok"
 			}
 
-			out["up"] = map[string]any{"headers": c13NS(svc.up.headers), "cookies": c13UpCookies(svc.up.cookies)}
+			out["up"] = map[string]any{
+				"headers": c13NS(svc.up.headers), "cookies": c13UpCookies(svc.up.cookies),
+				"payload": c13Val(svc.up.payload),
+			}
 		}
 
 		out["hits"] = svc.up.hits
